@@ -16,7 +16,8 @@
 (* Exact arithmetic: a finite angle is sign, D (whole degrees) and R, a     *)
 (* count of U-ths of a degree (U = 3.6e8, i.e. 1e-5 arc second), 0 <= R < U.*)
 (* Fractions are exact up to 7 (degrees), 6 (minutes), 5 (seconds) decimal  *)
-(* digits; beyond that R is the floor and exact = FALSE.                     *)
+(* digits (and further digits that still give whole units); beyond that      *)
+(* exact = FALSE and the magnitude of a piece lies in [R, R + 2) units.       *)
 (***************************************************************************)
 EXTENDS NumText
 
@@ -35,17 +36,24 @@ U == 360000000
 (* The symbol table of DMS.hpp.  U+00xx symbols are accepted in their UTF-8  *)
 (* form and as a single byte.                                                 *)
 (* ------------------------------------------------------------------------ *)
-DegSyms == {<<100>>, <<68>>, <<194, 176>>, <<194, 186>>, <<226, 129, 176>>, <<203, 154>>, <<226, 136, 152>>, <<42>>,
-            <<176>>, <<186>>}
-MinSyms == {<<39>>, <<96>>, <<226, 128, 178>>, <<226, 128, 181>>, <<194, 180>>, <<226, 128, 152>>, <<226, 128, 153>>,
-            <<226, 128, 155>>, <<202, 185>>, <<203, 138>>, <<203, 139>>, <<180>>}
-SecSyms == {<<34>>, <<226, 128, 179>>, <<226, 128, 182>>, <<203, 157>>, <<226, 128, 156>>, <<226, 128, 157>>,
-            <<226, 128, 159>>, <<202, 186>>}
-PlusSyms == {<<43>>, <<226, 158, 149>>, <<226, 129, 164>>}
-MinusSyms == {<<45>>, <<226, 128, 144>>, <<226, 128, 145>>, <<226, 128, 147>>, <<226, 128, 148>>, <<226, 136, 146>>,
-              <<226, 158, 150>>}
-SpaceSyms == {<<194, 160>>, <<226, 128, 135>>, <<226, 128, 137>>, <<226, 128, 138>>, <<226, 128, 139>>,
-              <<226, 128, 175>>, <<226, 129, 163>>, <<160>>}
+DegL == <<<<100>>, <<68>>, <<194, 176>>, <<194, 186>>, <<226, 129, 176>>, <<203, 154>>, <<226, 136, 152>>, <<42>>,
+          <<176>>, <<186>> >>
+MinL == <<<<39>>, <<96>>, <<226, 128, 178>>, <<226, 128, 181>>, <<194, 180>>, <<226, 128, 152>>, <<226, 128, 153>>,
+          <<226, 128, 155>>, <<202, 185>>, <<203, 138>>, <<203, 139>>, <<180>> >>
+SecL == <<<<34>>, <<226, 128, 179>>, <<226, 128, 182>>, <<203, 157>>, <<226, 128, 156>>, <<226, 128, 157>>,
+          <<226, 128, 159>>, <<202, 186>> >>
+PlusL == <<<<43>>, <<226, 158, 149>>, <<226, 129, 164>> >>
+MinusL == <<<<45>>, <<226, 128, 144>>, <<226, 128, 145>>, <<226, 128, 147>>, <<226, 128, 148>>, <<226, 136, 146>>,
+            <<226, 158, 150>> >>
+SpaceL == <<<<194, 160>>, <<226, 128, 135>>, <<226, 128, 137>>, <<226, 128, 138>>, <<226, 128, 139>>,
+            <<226, 128, 175>>, <<226, 129, 163>>, <<160>> >>
+Range(f) == {f[i] : i \in DOMAIN f}
+DegSyms == Range(DegL)
+MinSyms == Range(MinL)
+SecSyms == Range(SecL)
+PlusSyms == Range(PlusL)
+MinusSyms == Range(MinusL)
+SpaceSyms == Range(SpaceL)
 
 \* canonical code of a symbol sequence: 100 d, 39 ', 34 ", 43 +, 45 -, -1 removed, -2 not a symbol
 Canon(q) ==
@@ -148,6 +156,7 @@ InRange60(num) ==
 
 \* units of component k: <<D, R, exact, big>> (big: more than 8 digits of degrees)
 MaxFrac(k) == CASE k = 0 -> 7 [] k = 1 -> 6 [] k = 2 -> 5
+DigitAt(fp, i) == IF i <= Len(fp) THEN fp[i] - 48 ELSE 0
 CompUnits(num, k) ==
   IF num = <<>> THEN <<0, 0, TRUE, FALSE>>
   ELSE
@@ -155,12 +164,13 @@ CompUnits(num, k) ==
         L == MaxFrac(k)
         f1 == SubSeq(fp, 1, IF Len(fp) < L THEN Len(fp) ELSE L)
         fv == DigitsVal(f1) * Pow10(L - Len(f1))                      \* < 10^L
-        exact == AllZero(fp, L + 1)
         big == SigLen(ip) > 8
         iv == IF big THEN 0 ELSE DigitsVal(ip)
-    IN CASE k = 0 -> <<iv, 36 * fv, exact, big>>
-         [] k = 1 -> <<0, iv * 6000000 + 6 * fv, exact, FALSE>>
-         [] k = 2 -> <<0, iv * 100000 + fv, exact, FALSE>>
+        e2 == 10 * DigitAt(fp, 8) + DigitAt(fp, 9)                     \* degrees: 36 units per 1e-7
+        e1 == DigitAt(fp, 7)                                           \* minutes: 6 units per 1e-6
+    IN CASE k = 0 -> <<iv, 36 * fv + (36 * e2) \div 100, (36 * e2) % 100 = 0 /\ AllZero(fp, 10), big>>
+         [] k = 1 -> <<0, iv * 6000000 + 6 * fv + (6 * e1) \div 10, (6 * e1) % 10 = 0 /\ AllZero(fp, 8), FALSE>>
+         [] k = 2 -> <<0, iv * 100000 + fv, AllZero(fp, 6), FALSE>>
 
 (* One piece -> <<"fin", neg, D, R, exact, big, ind, mixed>>, <<"sp", class>>  or <<"bad">>.                  *)
 DecodePiece(p) ==
@@ -213,7 +223,7 @@ SumPieces(ps, i, acc) == IF i > Len(ps) \/ acc.bad THEN acc ELSE SumPieces(ps, i
 
 (* Decode(s): <<"throw">>, <<"sp", class, ind>> or                                                         *)
 (* <<"fin", neg, D, R, exact, big, ind, zero, mixed, maxD>>: value (-1)^neg (D + R/U); when ~exact the     *)
-(* magnitude lies in [D + R/U, D + (R+1)/U]; zero: the value is exactly zero (its sign is then neg if and  *)
+(* value is within 2 NPieces units of that; zero: the value is exactly zero (its sign is then neg if and  *)
 (* only if every piece is a negative zero, rule ZeroSignIEEE); mixed: colons and letters mixed in a piece  *)
 (* (the documentation does not say; rule MixedSeparators reads a colon as the indicator of the component   *)
 (* it follows).                                                                                             *)
